@@ -56,6 +56,10 @@ pub struct ChanCfg {
     /// (sweep, htlc, routing, invoice, funding, chain) and carries decoy rules for the kept ones
     #[serde(default)]
     pub filtered: bool,
+    /// a testnet signer whose store was initialised at an older built-in checkpoint (the tracker's
+    /// stored height lies between genesis and the newest checkpoint)
+    #[serde(default)]
+    pub oldcp: bool,
 }
 
 #[derive(Clone, Copy, Debug, PartialEq, Eq, Hash, PartialOrd, Ord, Serialize, Deserialize)]
@@ -422,7 +426,7 @@ impl Model for ChanModel {
             self.cfg.k,
             self.cfg.side,
             if self.cfg.cloud { ",cloud-store" } else { "" }
-        ) + if self.cfg.onchain { ",on-chain validator" } else { "" } + if self.cfg.backup { ",backup persister" } else { "" } + if self.cfg.filtered { ",policy filter on unrelated tags" } else { "" }
+        ) + if self.cfg.onchain { ",on-chain validator" } else { "" } + if self.cfg.backup { ",backup persister" } else { "" } + if self.cfg.filtered { ",policy filter on unrelated tags" } else { "" } + if self.cfg.oldcp { ",testnet store from an older checkpoint" } else { "" }
     }
 
     fn init(&self) -> ChanState {
@@ -431,6 +435,10 @@ impl Model for ChanModel {
         cfg.cloud = self.cfg.cloud;
         cfg.onchain = self.cfg.onchain;
         cfg.backup = self.cfg.backup;
+        if self.cfg.oldcp {
+            cfg.network = lightning_signer::bitcoin::Network::Testnet;
+            cfg.old_checkpoint = true;
+        }
         if self.cfg.filtered {
             cfg.policy = Some(crate::txbase::policy_with(|p| {
                 p.filter = crate::txbase::unrelated_filter(&["policy-commitment", "policy-revoke", "policy-channel", "policy-mutual", "policy-onchain"]);
@@ -1087,41 +1095,43 @@ pub fn configs(tier: Tier, side: Side, monitors: bool) -> Vec<ChanCfg> {
     let mut v = vec![];
     match (tier, side) {
         (Tier::Quick, Side::Holder) => {
-            v.push(ChanCfg { pv: 6, anchors: false, outbound: true, k: 2, side, core_letters: true, phase1: false, monitors, cloud: false, onchain: false, backup: false, filtered: false });
-            v.push(ChanCfg { pv: 5, anchors: true, outbound: true, k: 2, side, core_letters: false, phase1: true, monitors, cloud: false, onchain: false, backup: false, filtered: false });
-            v.push(ChanCfg { pv: 4, anchors: false, outbound: true, k: 2, side, core_letters: false, phase1: false, monitors, cloud: false, onchain: false, backup: false, filtered: false });
+            v.push(ChanCfg { pv: 6, anchors: false, outbound: true, k: 2, side, core_letters: true, phase1: false, monitors, cloud: false, onchain: false, backup: false, filtered: false, oldcp: false });
+            v.push(ChanCfg { pv: 5, anchors: true, outbound: true, k: 2, side, core_letters: false, phase1: true, monitors, cloud: false, onchain: false, backup: false, filtered: false, oldcp: false });
+            v.push(ChanCfg { pv: 4, anchors: false, outbound: true, k: 2, side, core_letters: false, phase1: false, monitors, cloud: false, onchain: false, backup: false, filtered: false, oldcp: false });
             if !monitors {
-                v.push(ChanCfg { pv: 6, anchors: false, outbound: true, k: 2, side, core_letters: true, phase1: false, monitors, cloud: false, onchain: true, backup: false, filtered: false });
-                v.push(ChanCfg { pv: 6, anchors: false, outbound: true, k: 2, side, core_letters: true, phase1: true, monitors, cloud: false, onchain: false, backup: false, filtered: true });
+                v.push(ChanCfg { pv: 6, anchors: false, outbound: true, k: 2, side, core_letters: true, phase1: false, monitors, cloud: false, onchain: true, backup: false, filtered: false, oldcp: false });
+                v.push(ChanCfg { pv: 6, anchors: false, outbound: true, k: 2, side, core_letters: true, phase1: true, monitors, cloud: false, onchain: false, backup: false, filtered: true, oldcp: false });
             }
         }
         (Tier::Thorough, Side::Holder) => {
             for pv in [4u32, 5, 6] {
                 for anchors in [false, true] {
-                    v.push(ChanCfg { pv, anchors, outbound: true, k: 3, side, core_letters: true, phase1: true, monitors, cloud: false, onchain: false, backup: false, filtered: false });
+                    v.push(ChanCfg { pv, anchors, outbound: true, k: 3, side, core_letters: true, phase1: true, monitors, cloud: false, onchain: false, backup: false, filtered: false, oldcp: false });
                 }
             }
-            v.push(ChanCfg { pv: 6, anchors: false, outbound: false, k: 3, side, core_letters: true, phase1: true, monitors, cloud: false, onchain: false, backup: false, filtered: false });
-            v.push(ChanCfg { pv: 6, anchors: false, outbound: true, k: 3, side, core_letters: true, phase1: true, monitors, cloud: false, onchain: true, backup: false, filtered: false });
-            v.push(ChanCfg { pv: 5, anchors: true, outbound: true, k: 3, side, core_letters: true, phase1: true, monitors, cloud: false, onchain: true, backup: false, filtered: false });
+            v.push(ChanCfg { pv: 6, anchors: false, outbound: false, k: 3, side, core_letters: true, phase1: true, monitors, cloud: false, onchain: false, backup: false, filtered: false, oldcp: false });
+            v.push(ChanCfg { pv: 6, anchors: false, outbound: true, k: 3, side, core_letters: true, phase1: true, monitors, cloud: false, onchain: true, backup: false, filtered: false, oldcp: false });
+            v.push(ChanCfg { pv: 5, anchors: true, outbound: true, k: 3, side, core_letters: true, phase1: true, monitors, cloud: false, onchain: true, backup: false, filtered: false, oldcp: false });
         }
         (Tier::Quick, Side::Cp) => {
-            v.push(ChanCfg { pv: 6, anchors: false, outbound: true, k: 3, side, core_letters: false, phase1: false, monitors, cloud: false, onchain: false, backup: false, filtered: false });
+            v.push(ChanCfg { pv: 6, anchors: false, outbound: true, k: 3, side, core_letters: false, phase1: false, monitors, cloud: false, onchain: false, backup: false, filtered: false, oldcp: false });
             if !monitors {
-                v.push(ChanCfg { pv: 6, anchors: false, outbound: true, k: 2, side, core_letters: false, phase1: true, monitors, cloud: false, onchain: false, backup: false, filtered: true });
+                v.push(ChanCfg { pv: 6, anchors: false, outbound: true, k: 2, side, core_letters: false, phase1: true, monitors, cloud: false, onchain: false, backup: false, filtered: true, oldcp: false });
             }
         }
         (Tier::Thorough, Side::Cp) => {
-            v.push(ChanCfg { pv: 6, anchors: false, outbound: true, k: 4, side, core_letters: false, phase1: true, monitors, cloud: false, onchain: false, backup: false, filtered: false });
-            v.push(ChanCfg { pv: 6, anchors: true, outbound: true, k: 3, side, core_letters: false, phase1: true, monitors, cloud: false, onchain: false, backup: false, filtered: false });
+            v.push(ChanCfg { pv: 6, anchors: false, outbound: true, k: 4, side, core_letters: false, phase1: true, monitors, cloud: false, onchain: false, backup: false, filtered: false, oldcp: false });
+            v.push(ChanCfg { pv: 6, anchors: true, outbound: true, k: 3, side, core_letters: false, phase1: true, monitors, cloud: false, onchain: false, backup: false, filtered: false, oldcp: false });
         }
     }
     if monitors {
         // the same histories over the transactional store (C10 / C11 clauses about it)
         let k = if side == Side::Cp { 3 } else { 2 };
-        v.push(ChanCfg { pv: 6, anchors: false, outbound: true, k, side, core_letters: side == Side::Holder, phase1: tier == Tier::Thorough, monitors, cloud: true, onchain: false, backup: false, filtered: false });
+        v.push(ChanCfg { pv: 6, anchors: false, outbound: true, k, side, core_letters: side == Side::Holder, phase1: tier == Tier::Thorough, monitors, cloud: true, onchain: false, backup: false, filtered: false, oldcp: false });
+        // ... on a testnet signer whose store dates from an older built-in checkpoint
+        v.push(ChanCfg { pv: 6, anchors: false, outbound: true, k: 2, side, core_letters: false, phase1: false, monitors, cloud: false, onchain: false, backup: false, filtered: false, oldcp: true });
         // ... and through the composite main + backup persister
-        v.push(ChanCfg { pv: 6, anchors: false, outbound: true, k, side, core_letters: false, phase1: false, monitors, cloud: false, onchain: false, backup: true, filtered: false });
+        v.push(ChanCfg { pv: 6, anchors: false, outbound: true, k, side, core_letters: false, phase1: false, monitors, cloud: false, onchain: false, backup: true, filtered: false, oldcp: false });
     }
     v
 }
@@ -1170,6 +1180,7 @@ pub fn replay_ops(v: &Value) -> Vec<Vio> {
         onchain: false,
         backup: false,
         filtered: false,
+        oldcp: false,
     };
     let ops: Vec<Op> = serde_json::from_value(v["ops"].clone()).unwrap();
     let m = ChanModel { cfg };
